@@ -254,6 +254,7 @@ void sim_violation(const char *cls, const char *fmt, ...) {
 		va_start(ap, fmt);
 		vsnprintf(S.detail, sizeof(S.detail), fmt, ap);
 		va_end(ap);
+		if (S.ctx_tag[0]) { size_t l = strlen(S.detail); snprintf(S.detail + l, sizeof(S.detail) - l, " [ctx: %s]", S.ctx_tag); }
 		snprintf(S.vsite, sizeof(S.vsite), "%s", sim_cur_site());
 		S.vtime = S.now;
 		if (sim_trace_on) fprintf(stderr, "[t=%llu s=%llu f=%d] VIOLATION %s: %s\n",
@@ -265,6 +266,7 @@ void sim_violation(const char *cls, const char *fmt, ...) {
 	}
 }
 int sim_violated(void) { return S.violated; }
+void sim_set_context_tag(const char *tag) { snprintf(S.ctx_tag, sizeof(S.ctx_tag), "%s", tag ? tag : ""); }
 const char *sim_cur_site(void) {
 	if (S.cur >= 0 && S.fb[S.cur].last_site) return S.fb[S.cur].last_site;
 	return "-";
@@ -358,6 +360,7 @@ void sim_yield(const char *site) {
 static void sim_yield_yieldy(const char *site) {
 	if (S.cur < 0 || !S.in_loop) return;
 	S.fb[S.cur].yieldy = 1;
+	S.fb[S.cur].spinning = 1;
 	sim_yield(site);
 }
 void sim_block(sim_pred_fn pred, void *arg, uint64_t deadline_ns, const char *site) {
@@ -520,6 +523,18 @@ void sim_loop(void) {
 			refresh_epoll_ready(1);
 			for (int i = 0; i < S.nfb; i++) if (fiber_runnable(&S.fb[i])) run[n++] = i;
 		}
+		if (n > 0) {
+			/* only spinners (fibers sitting in sched_yield) are runnable: they burn time until the next timed event */
+			int all_spin = 1;
+			for (int i = 0; i < n; i++) if (!S.fb[run[i]].spinning) { all_spin = 0; break; }
+			if (all_spin) {
+				uint64_t t = timed_next(), t2;
+				t2 = sim_timers_next(); if (t2 < t) t = t2;
+				t2 = sim_children_next(); if (t2 < t) t = t2;
+				for (int i = 0; i < S.nfb; i++) if (S.fb[i].st == FB_BLOCKED && S.fb[i].wake_at && S.fb[i].wake_at < t) t = S.fb[i].wake_at;
+				if (t != UINT64_MAX && t > S.now) { S.now = t; sim_probe("sched.spin_time_jump"); continue; }
+			}
+		}
 		if (n == 0) {
 			uint64_t t = timed_next(), t2;
 			int idle = -1;
@@ -562,6 +577,7 @@ void sim_loop(void) {
 		}
 		f->st = FB_READY;
 		f->yieldy = 0;
+		f->spinning = 0;
 		S.cur = id;
 		last = id;
 		errno = f->saved_errno;
@@ -615,6 +631,7 @@ static void crash_handler(int sig, siginfo_t *si, void *uc) {
 				snprintf(S.detail, sizeof(S.detail), "fiber %d (%s) touched the stack of finished fiber %d (%s) after it returned",
 				    S.cur, S.fb[S.cur].name, owner, owner >= 0 ? S.fb[owner].name : "?");
 			}
+			if (S.ctx_tag[0]) { size_t l = strlen(S.detail); snprintf(S.detail + l, sizeof(S.detail) - l, " [ctx: %s]", S.ctx_tag); }
 			snprintf(S.vsite, sizeof(S.vsite), "%s", sim_cur_site());
 			S.vtime = S.now;
 		}
@@ -625,8 +642,8 @@ static void crash_handler(int sig, siginfo_t *si, void *uc) {
 	/* a real crash: report and die (driver reconstructs the plan from the run file) */
 	{
 		char buf[256];
-		int n = snprintf(buf, sizeof(buf), "\nCRASH sig=%d addr=%p fiber=%d site=%s step=%llu\n", sig, si->si_addr, S.cur,
-		    (S.cur >= 0 && S.fb[S.cur].last_site) ? S.fb[S.cur].last_site : "-", (unsigned long long)S.step);
+		int n = snprintf(buf, sizeof(buf), "\nCRASH sig=%d addr=%p fiber=%d site=%s step=%llu ctx=%s\n", sig, si->si_addr, S.cur,
+		    (S.cur >= 0 && S.fb[S.cur].last_site) ? S.fb[S.cur].last_site : "-", (unsigned long long)S.step, S.ctx_tag[0] ? S.ctx_tag : "-");
 		if (n > 0) (void)!write(2, buf, (size_t)n);
 	}
 	{
